@@ -32,7 +32,7 @@ def main() -> int:
     from fdsim import engine
 
     if a.exec_spec or a.exec_specs or a.replay or a.index is not None:
-        engine._winit(1)
+        engine._winit(1, bool(getattr(engine.load_check(prop if not a.replay else json.load(open(a.replay))['property']), 'X64', True)))
         if a.exec_spec:
             spec = json.load(sys.stdin if a.exec_spec == "-" else open(a.exec_spec))
             r = engine._wrun(prop, 0, spec, 3600)
